@@ -23,22 +23,22 @@ theorem gmul_table {a b : Nat} (ha : a < 256) (hb : b < 256) :
   have hr : 16 * (a / 16) ≤ a ∧ a < 16 * (a / 16) + 16 := by omega
   generalize a / 16 = q at hq hr
   match q, hq with
-  | 0, _ => exact chk_of_rows rows00 hr hb
-  | 1, _ => exact chk_of_rows rows01 hr hb
-  | 2, _ => exact chk_of_rows rows02 hr hb
-  | 3, _ => exact chk_of_rows rows03 hr hb
-  | 4, _ => exact chk_of_rows rows04 hr hb
-  | 5, _ => exact chk_of_rows rows05 hr hb
-  | 6, _ => exact chk_of_rows rows06 hr hb
-  | 7, _ => exact chk_of_rows rows07 hr hb
-  | 8, _ => exact chk_of_rows rows08 hr hb
-  | 9, _ => exact chk_of_rows rows09 hr hb
-  | 10, _ => exact chk_of_rows rows10 hr hb
-  | 11, _ => exact chk_of_rows rows11 hr hb
-  | 12, _ => exact chk_of_rows rows12 hr hb
-  | 13, _ => exact chk_of_rows rows13 hr hb
-  | 14, _ => exact chk_of_rows rows14 hr hb
-  | 15, _ => exact chk_of_rows rows15 hr hb
+  | 0, _ => exact chk_of_rows Gmul00.rows hr hb
+  | 1, _ => exact chk_of_rows Gmul01.rows hr hb
+  | 2, _ => exact chk_of_rows Gmul02.rows hr hb
+  | 3, _ => exact chk_of_rows Gmul03.rows hr hb
+  | 4, _ => exact chk_of_rows Gmul04.rows hr hb
+  | 5, _ => exact chk_of_rows Gmul05.rows hr hb
+  | 6, _ => exact chk_of_rows Gmul06.rows hr hb
+  | 7, _ => exact chk_of_rows Gmul07.rows hr hb
+  | 8, _ => exact chk_of_rows Gmul08.rows hr hb
+  | 9, _ => exact chk_of_rows Gmul09.rows hr hb
+  | 10, _ => exact chk_of_rows Gmul10.rows hr hb
+  | 11, _ => exact chk_of_rows Gmul11.rows hr hb
+  | 12, _ => exact chk_of_rows Gmul12.rows hr hb
+  | 13, _ => exact chk_of_rows Gmul13.rows hr hb
+  | 14, _ => exact chk_of_rows Gmul14.rows hr hb
+  | 15, _ => exact chk_of_rows Gmul15.rows hr hb
   | n + 16, h => exact absurd h (by omega)
 
 end Proofs.C02_Aes.Gmul
